@@ -102,7 +102,8 @@ class C08(Prop):
                 b = bytes(s)
             out.append(case(None, rng.choice(["N", benign]), "malformed", raw=b, nontrivial=len(b) > 3))
         # nesting sweeps
-        depths = [10, 1000, 4990, 4999, 5000, 5001, 5010, 20000, 200000] + ([1000000, 3000000] if tier == "thorough" else [600000])
+        depths = ([10, 1000, 4990, 4999, 5000, 5001, 5010, 20000, 200000, 1000000, 3000000] if tier == "thorough"
+                  else [10, 1000, 4999, 5000, 5001, 20000, 600000])
         shapes = {
             "paren": lambda k: "return " + "(" * k + "1" + ")" * k + ";",
             "paren-open": lambda k: "return " + "(" * k + "1;",
